@@ -14,7 +14,13 @@ import (
 	"unsafe"
 
 	"github.com/google/wire"
+	"example.com/c/zsets"
 )
+
+// DV is defined in terms of another package's struct, DA is an alias of it: the unexported field belongs to zsets
+type DV zsets.Hidden
+
+type DA = zsets.Hidden
 
 type T struct {{
 	X int
@@ -115,12 +121,17 @@ def spellings():
             add("struct/%d/%d" % (k, j), inj("Init", res, "%s.Build(%s.Struct(%s), NewInt, NewStr)" % (W, W, args)))
     # --- struct shapes: same-typed fields, blank fields, embedded fields
     for k, (ty, fields) in enumerate([("D", '"*"'), ("D", '"A", "B"'), ("D", '"A", "C"'), ("D", '"A", "A"'), ("D", '"C", "B", "A"'),
-                                      ("BL", '"*"'), ("BL", '"_"'), ("BL", '"X"'), ("BL", '"X", "_"'), ("BL2", '"*"'), ("BL2", '"_", "X"'),
+                                      ("BL", '"*"'), ("BL", '"_"'), ("BL", '"X"'), ("BL", '"X", "_"'), ("BL2", '"*"'), ("BL2", '"_", "X"'), ("DV", '"*"'), ("DV", '"A"'), ("DV", '"A", "b"'), ("DA", '"*"'), ("DA", '"A"'), ("DA", '"b"'),
                                       ("E", '"*"'), ("E", '"T"'), ("E", '"N"'), ("E", '"X"'), ("E", '"T", "N"')]):
         add("shape-struct/%d" % k, inj("Init", ty, "wire.Build(wire.Struct(new(%s), %s), NewInt, NewStr, NewT, wire.Value(int64(1)), "
                                                    "wire.Value(struct{}{}))" % (ty, fields)))
         add("shape-structptr/%d" % k, inj("Init", "*" + ty, "wire.Build(wire.Struct(new(%s), %s), NewInt, NewStr, NewT, wire.Value(int64(1)), "
                                                             "wire.Value(struct{}{}))" % (ty, fields)))
+    # struct types defined from (or aliasing) another package's struct: exactly the providers the named fields need
+    for k, (ty, fields, provs) in enumerate([("DV", '"*"', "NewInt, NewStr"), ("DA", '"*"', "NewInt, NewStr"), ("DV", '"A", "b"', "NewInt, NewStr"),
+                                             ("DA", '"b", "A"', "NewInt, NewStr"), ("DV", '"A"', "NewInt"), ("DA", '"A"', "NewInt"), ("DV", '"b"', "NewStr")]):
+        add("shape-foreignstruct/%d" % k, inj("Init", ty, "wire.Build(wire.Struct(new(%s), %s), %s)" % (ty, fields, provs)))
+        add("shape-foreignstructptr/%d" % k, inj("Init", "*" + ty, "wire.Build(wire.Struct(new(%s), %s), %s)" % (ty, fields, provs)))
     for k, (ty, fields, res) in enumerate([("D", '"A"', "string"), ("D", '"A", "B"', "string"), ("D", '"C"', "int"), ("BL", '"_"', "int"),
                                            ("BL", '"X"', "int"), ("E", '"T"', "T"), ("E", '"N"', "int64"), ("E", '"X"', "int"), ("E", '"*"', "int64")]):
         add("shape-fieldsof/%d" % k, "func mk%s() %s { var z %s; return z }\n\n" % (ty, ty, ty)
@@ -189,6 +200,9 @@ def spellings():
     add("paramshadow/after", inj("First", "int", "wire.Build(NewInt)") + "\nfunc Init(NewInt func() int) string {\n\tpanic(wire.Build(NewInt, NewStr))\n}\n")
     add("paramshadow/set", "var S = wire.NewSet(NewInt)\n\n" + inj("First", "int", "wire.Build(S)") + "\nfunc Init(S int) string {\n\tpanic(wire.Build(S, NewStr))\n}\n")
     add("paramshadow/local-value", "func Init(n int) *int {\n\tpanic(wire.Build(wire.Value(&n)))\n}\n")
+    # functions of packages outside the user's module as items: a bad signature is reported where the function is declared
+    for k, e in enumerate(["os.Exit", "errors.Is", "os.Getenv", "errors.New", "io.ReadAll"]):
+        add("foreignfunc/%d" % k, inj("Init", "string", "wire.Build(NewStr, %s)" % e))
     add("sets/multi", "func twoSets() (wire.ProviderSet, wire.ProviderSet) { return wire.NewSet(), wire.NewSet() }\n\n"
                       "var A, B = twoSets()\n\n" + inj("Init", "int", "wire.Build(NewInt)"))
     add("sets/multi-used", "func twoSets() (wire.ProviderSet, wire.ProviderSet) { return wire.NewSet(NewInt), wire.NewSet() }\n\n"
@@ -221,7 +235,7 @@ def spellings():
 
 
 HELPERS = {
-    "zsets/zsets.go": "package zsets\n\nimport \"github.com/google/wire\"\n\nfunc NewInt() int { return 3 }\n\nvar Default = wire.NewSet(NewInt)\n\nvar Plain = 7\n",
+    "zsets/zsets.go": "package zsets\n\nimport \"github.com/google/wire\"\n\nfunc NewInt() int { return 3 }\n\nvar Default = wire.NewSet(NewInt)\n\nvar Plain = 7\n\ntype Hidden struct {\n\tA int\n\tb string\n}\n\nfunc (h Hidden) B() string { return h.b }\n",
     # re-exports a provider set and does not import wire itself
     "zshared/zshared.go": "package zshared\n\nimport \"%s/zsets\"\n\nvar Default = zsets.Default\n\nvar Number = zsets.Plain\n\nvar Fn = zsets.NewInt\n" % MOD,
 }
